@@ -82,6 +82,7 @@ type fnExec struct {
 	// current block context
 	curR      Term
 	sentinels []string
+	preAssumed bool
 	lemmasUsed map[string]bool
 	st        *State
 	live      bool
@@ -186,6 +187,12 @@ func (fx *fnExec) oblige(name, kind string, goal Term, where, src string) {
 func (fx *fnExec) obligeG(g Term, name, kind string, goal Term, where, src string) {
 	if kind == "safety" && !fx.safetyChecks {
 		fx.assumeG(g, goal)
+		return
+	}
+	if kind == "pre" && fx.ctr != nil && fx.ctr.Opts["pre"] == "assume" {
+		// callee preconditions taken for granted (reported among the assumptions): used where only a frame is claimed
+		fx.assumeG(g, goal)
+		fx.preAssumed = true
 		return
 	}
 	fx.oblCount[name]++
@@ -1628,7 +1635,7 @@ func sortedValues(m map[ssa.Value]bool) []ssa.Value {
 // checkFrame: a declared `modifies` clause must cover everything the body (transitively, through callee
 // contracts or bodies) may write.  Decided syntactically over the SSA.
 func (fx *fnExec) checkFrame() {
-	if fx.ctr == nil || !fx.ctr.ModSet {
+	if fx.ctr == nil || (!fx.ctr.ModSet && !fx.ctr.Pure) {
 		return
 	}
 	ms := newModSet()
@@ -1639,7 +1646,7 @@ func (fx *fnExec) checkFrame() {
 		}
 		pp := strings.TrimSuffix(p, "*")
 		for _, d := range fx.ctr.Modifies {
-			if d == "all" || d == p || d == pp {
+			if (d == "all" && !strings.HasPrefix(p, "captured.")) || d == p || d == pp {
 				return true
 			}
 			if strings.HasSuffix(d, "*") && strings.HasPrefix(pp, strings.TrimSuffix(d, "*")) {
@@ -1649,7 +1656,7 @@ func (fx *fnExec) checkFrame() {
 		return false
 	}
 	var bad []string
-	if ms.all {
+	if ms.all && !covered("all") {
 		bad = append(bad, "an unspecified callee may write anything")
 	}
 	for _, h := range sortedKeys(ms.heaps) {
@@ -1660,6 +1667,12 @@ func (fx *fnExec) checkFrame() {
 	for _, c := range sortedValues(ms.cells) {
 		if g, ok := c.(*ssa.Global); ok && !covered("global."+g.Name()) {
 			bad = append(bad, "global."+g.Name())
+		}
+	}
+	// a closure that assigns a variable it captured carries state from one call to the next
+	for _, fv := range fx.fn.FreeVars {
+		if closureStores(fx.fn, fv, map[*ssa.Function]bool{}) && !covered("captured."+fv.Name()) {
+			bad = append(bad, "captured."+fv.Name())
 		}
 	}
 	o := &Obligation{Name: fx.name + "/frame", Kind: "frame", Func: fx.name, Mode: fx.mode, Prefix: 0, Goal: tTrue,
